@@ -6,6 +6,7 @@ import (
 	"crypto"
 	"errors"
 	"net/url"
+	"time"
 
 	ssi "github.com/nuts-foundation/go-did"
 	"github.com/nuts-foundation/go-did/vc"
@@ -171,5 +172,74 @@ func H02b_twin() {
 	hC02Clock = t1.t
 	if hC02Offer(r, hC02LdVP(p), "c") && db.live("s2s/nonce", nonce) >= 0 {
 		vAssert(false, "H02b_twin.reach: reachable")
+	}
+}
+
+// H02r: replay with another presentation in between. Presentation P1 (created at t1, valid for 4 s, nonce n) is
+// offered at t1 and accepted; then P2 - another presentation carrying the same nonce with its own (attacker-chosen)
+// validity period, expiring anywhere from 10 s before to 20 s after t1 - is offered at t2; then P1 again at t3
+// (t1 <= t2 <= t3, each step 0..12 s). Whatever P2 is and whatever happens to it: P1 is not accepted twice.
+// (A refused request must not shorten the time the nonce of an accepted one is remembered.)
+func H02r() {
+	const base = int64(1700000000)
+	at := func(sec int64) time.Time { return time.Unix(sec, 0) }
+	nonce := "n"
+	dom := hC02OfferDomain
+	mk := func(created, expires time.Time) vc.VerifiablePresentation {
+		var p proof.LDProof
+		p.Created = created
+		p.Expires = &expires
+		p.Nonce = &nonce
+		p.Domain = &dom
+		p.VerificationMethod = ssi.MustParseURI("did:web:a#k")
+		return hC02LdVP(p)
+	}
+	vTag("expires2")
+	e2 := base + int64(vRange(-10, 20))
+	vTag("validity2")
+	c2 := e2 - int64(vRange(0, 5))
+	vTag("dt2")
+	t2 := base + int64(vRange(0, 12))
+	vTag("dt3")
+	t3 := t2 + int64(vRange(0, 12))
+	vp1, vp2 := mk(at(base), at(base+4)), mk(at(c2), at(e2))
+	db := newHC02DB()
+	r := hC02OfferWrapper(db)
+	hC02SigVerdict = nil
+
+	hC02Clock = at(base)
+	acc1 := hC02Offer(r, vp1, "a")
+	vAssert(acc1, "H02r.first_accepted: a fresh, valid presentation was refused")
+	hC02Clock = at(t2)
+	acc2 := hC02Offer(r, vp2, "a")
+	hC02Clock = at(t3)
+	acc3 := hC02Offer(r, vp1, "a")
+	if !acc2 {
+		vCover("second-refused")
+	}
+	if acc3 {
+		vClass("replay after another presentation with the same nonce was offered")
+	}
+	vAssert(!acc3, "H02r.nonce_single_use_across_requests: a presentation was accepted twice after another presentation with the same nonce had been offered in between")
+	vAssert(!acc2, "H02r.nonce_single_use: two presentations with the same nonce were both accepted")
+}
+
+func H02r_twin() {
+	created := hC02SymTime("created", 1700000000, 1700000100, 1)
+	expires := hC02SymTime("expires", 1700000000, 1700000100, 1)
+	t1 := hC02SymTime("t1", 1700000000, 1700000100, 1)
+	nonce := "n"
+	dom := hC02OfferDomain
+	var p proof.LDProof
+	p.Created = created.t
+	p.Expires = &expires.t
+	p.Nonce = &nonce
+	p.Domain = &dom
+	p.VerificationMethod = ssi.MustParseURI("did:web:a#k")
+	r := hC02OfferWrapper(newHC02DB())
+	hC02SigVerdict = nil
+	hC02Clock = t1.t
+	if hC02Offer(r, hC02LdVP(p), "a") && !hC02Offer(r, hC02LdVP(p), "a") {
+		vAssert(false, "H02r_twin.reach: reachable")
 	}
 }
